@@ -86,22 +86,18 @@ def drv(ctx, args, tag, timeout=1200):
     return out, vp.last_json_line(so)
 
 
-def validate_obs(ctx, trace, summ, what):
-    v = vp.tlc_trace("lockfree", "SeqLockObsTrace", trace)
-    vp.record_tlc(ctx, f"SeqLockObsTrace[{os.path.basename(trace)}]", v.res, count=False)
-    if v.accepted:
-        ctx.traces_validated += summ["executions"]
-        return
-    recs = vp.read_ndjson(trace)
-    run, rel = vp.run_containing(recs, v.pos) if v.pos else (recs[:40], 0)
-    lo = max(0, rel - 12)
-    end = [r for r in run if r.get("k") == "end"]
-    ctx.report(vp.Violation(
-        f"{what}: a load of the real UnrestrictedAtomic returned a value that is torn, was never written or is older "
-        f"than one this reader had already seen: {v.record}",
-        replay={"what": what, "summary": summ, "events_before": [r for r in run[lo:rel] if r.get("k") != "atom"],
-                "first_unexplained": v.record, "schedule": end[0].get("sched") if end else None},
-        signature=f"obs:{what.split(' ')[0]}"))
+def on_reject(ctx):
+    def f(meta, v, run, rel):
+        what, summ = meta if meta else ("?", {})
+        lo = max(0, rel - 12)
+        end = [r for r in run if r.get("k") == "end"]
+        ctx.report(vp.Violation(
+            f"{what}: a load of the real UnrestrictedAtomic returned a value that is torn, was never written or is older "
+            f"than one this reader had already seen: {v.record}",
+            replay={"what": what, "summary": summ, "events_before": [r for r in run[lo:rel] if r.get("k") != "atom"],
+                    "first_unexplained": v.record, "schedule": end[0].get("sched") if end else None},
+            signature=f"obs:{what.split(' ')[0]}"))
+    return f
 
 
 def run(ctx):
@@ -110,11 +106,12 @@ def run(ctx):
     ctx.assumptions += ["C11Mem simplifications; payload reads instantaneous in the model",
                         "preemption-bounded schedule enumeration; free-running runs sample real interleavings"]
     tab_final, drift_any = {}, False
+    bv = vp.BatchValidator(ctx, "lockfree", "SeqLockObsTrace", on_reject(ctx))
     cfgs = [(2, 3, 1, 2, 2), (1, 2, 2, 2, 2)] if q else [(2, 3, 1, 2, 3), (1, 3, 2, 2, 2), (3, 4, 1, 3, 2), (9, 3, 2, 2, 2)]
     for (w, k, nr, nl, bound) in cfgs:
         tag = f"dfs-w{w}-k{k}-r{nr}-l{nl}"
         trace, summ = drv(ctx, ["--words", w, "--stores", k, "--readers", nr, "--loads", nl, "--mode", "dfs",
-                                "--bound", bound, "--runs", 1500 if q else 30000, "--yield-after", "--atoms"], tag)
+                                "--bound", bound, "--runs", 500 if q else 30000, "--yield-after", "--atoms"], tag)
         ctx.evaluations += summ["executions"]
         recs = vp.read_ndjson(trace)
         ctx.distinct += len({tuple(r["sched"]) for r in recs if r.get("k") == "end"})
@@ -126,7 +123,7 @@ def run(ctx):
         recs2, tab, drift = prepare(recs)
         api = ctx.path("traces", f"{tag}-api.ndjson")
         vp.write_ndjson(api, [r for r in recs2 if r.get("k") not in ("atom", "aux")])
-        validate_obs(ctx, api, summ, f"scheduled words={w}")
+        bv.add(api, (f"scheduled words={w}", summ), summ["executions"])
         if drift or (tab_final and tab != tab_final):
             drift_any = True
             print(f"DRIFT: UnrestrictedAtomic access structure differs from SeqLock2.tla: {drift[:3]} {tab}")
@@ -148,11 +145,11 @@ def run(ctx):
                                                 if r.get("k") in ("call", "ret")]})
     # random schedules, longer programs
     trace, summ = drv(ctx, ["--words", 3, "--stores", 6, "--readers", 2, "--loads", 5, "--mode", "random",
-                            "--runs", 150 if q else 3000, "--yield-after"], "random")
+                            "--runs", 60 if q else 3000, "--yield-after"], "random")
     ctx.evaluations += summ["executions"]
-    validate_obs(ctx, trace, summ, "random-schedules words=3")
+    bv.add(trace, ("random-schedules words=3", summ), summ["executions"])
     # free-running real threads, self-checking payloads, raw API with odd sizes / alignments
-    free = [("--words", 64, 3000), ("--raw", "1,1", 200), ("--raw", "7,1", 200), ("--raw", "129,64", 200)]
+    free = [("--words", 64, 1500), ("--raw", "7,1", 200), ("--raw", "129,64", 200)]
     if not q:
         free += [("--words", 9, 20000), ("--raw", "3,2", 240), ("--raw", "24,8", 240), ("--raw", "512,16", 240),
                  ("--raw", "65,1", 240), ("--words", 64, 20000)]
@@ -160,7 +157,8 @@ def run(ctx):
         for rep in range(1 if q else 3):
             trace, summ = drv(ctx, [flag, val, "--stores", stores, "--readers", 2, "--mode", "free"], f"free-{n}-{rep}")
             ctx.evaluations += summ.get("loads", 1)
-            validate_obs(ctx, trace, summ, f"free-running {flag}={val}")
+            bv.add(trace, (f"free-running {flag}={val}", summ), 1)
+    bv.run()
     ctx.sample({"free_running": "writer stores k=1..N ([k; W] words / k bytes), 2 readers load concurrently; "
                                 "events merged by SeqCst stamps"})
 
